@@ -3,7 +3,6 @@ C13 — Filters and sorting select exactly the matching data and never alter it.
 Property theorems only (helper lemmas: KlogV/Lemmas/Query.lean).
 -/
 import KlogV.Lemmas.Query
-import KlogV.Props.GoCal
 namespace KlogV.C13
 
 /-- The filter handles every record on its own, keeps the original order and drops the records
